@@ -36,6 +36,36 @@ func runC05(c *Ctx) {
 	// up (the argument AddBlock stores is the maximum of the stored and the precommitted
 	// height) — the rule of C04.R3
 	c.MinInstances("C05.R10 finalized-marker-monotone", c.borrowRule(runC04, "C04", "R3 monotone-argument", "C05.R10 finalized-marker-monotone", nil), 1)
+	// R11: the cached tip is restored by every removal, however many blocks are reverted in a
+	// row: the block cache only holds the last few blocks and forgets one per removal, so the
+	// removal refills it from the database once it runs empty (a nil tip is dereferenced by the
+	// next removal and by block verification)
+	if rb := c.Anchor("pkg/blockchain.(*Chain).RemoveBlock"); rb != nil {
+		rf := factsOf(rb)
+		okRefill := false
+		site := p.Pos(rb.Pos())
+		for _, s := range CallsIn(rb, "(*blockchain.Chain).PrepareCache") {
+			site = p.InstrPos(s.Call)
+			after := false
+			for _, rc := range CallsIn(rb, "(*blockchain.DataAccess).RemoveCache") {
+				if instrDominates(rc.Call, s.Call) {
+					after = true
+				}
+			}
+			gf := rf
+			if s.Fn != rb {
+				gf = factsOf(s.Fn)
+			}
+			empty := gf.EveryPathHas(s.Call.Block(), func(f Fact) bool {
+				str := f.String()
+				return f.IsCmp && (strings.Contains(str, "CachedLastBlock(") || strings.Contains(str, ".size")) && (strings.Contains(str, "nil") || strings.Contains(str, "== 0") || strings.Contains(str, "0 =="))
+			})
+			if after && empty {
+				okRefill = true
+			}
+		}
+		c.Require("C05.R11 tip-cached-after-every-removal", FuncKey(rb), site, "after the cache forgot the removed block, an empty cache is refilled from the database before the removal returns", okRefill, "")
+	}
 
 	// ---- R1 key-family symmetry
 	checkKeyFamilySymmetry(c, "C05.R1", saveBlock, rmBlock)
